@@ -560,8 +560,11 @@ pub fn run_shard(ctx: &mut Ctx) {
     let mut h = 0u64;
     let is07 = ctx.prop == "C07";
     if is07 {
+        ctx.begin_phase(0.15);
         full_queue_rounds(ctx, &mut r);
+        ctx.end_phase();
         // records of 130-600 kB in closed chunks read by several threads at once
+        ctx.begin_phase(0.2);
         let n = if ctx.tier == Tier::Quick { 2 } else { 200 };
         for _ in 0..n {
             if !ctx.time_left() {
@@ -576,8 +579,10 @@ pub fn run_shard(ctx: &mut Ctx) {
                 Err(vi) => ctx.out.viol(vi),
             }
         }
+        ctx.end_phase();
     } else {
         // chunks far larger than the cache limits: the boundary jumps over a whole chunk at once
+        ctx.begin_phase(0.15);
         let n = if ctx.tier == Tier::Quick { 4 } else { 400 };
         for _ in 0..n {
             if !ctx.time_left() {
@@ -592,6 +597,8 @@ pub fn run_shard(ctx: &mut Ctx) {
                 Err(vi) => ctx.out.viol(vi),
             }
         }
+        ctx.end_phase();
+        ctx.begin_phase(0.2);
         // accounting along walks in which update_state moves last/purged back and forth, so that log ids that are
         // still resident are appended again, truncated, purged and replayed by restarts (no specification needed:
         // the rule compares stat() with the resident set)
@@ -609,6 +616,7 @@ pub fn run_shard(ctx: &mut Ctx) {
                 ctx.out.viol(a);
             }
         }
+        ctx.end_phase();
     }
     loop {
         if ctx.tier == Tier::Quick && h >= quick_n {
@@ -690,7 +698,8 @@ pub fn run_shard(ctx: &mut Ctx) {
 pub fn full_queue_rounds(ctx: &mut Ctx, r: &mut Rng) {
     let n = if ctx.tier == Tier::Quick { 2 } else { 30 };
     let (t0, b) = (ctx.t0, ctx.budget_s);
-    crate::props::maxbatch::run(&mut ctx.out, n, r, &|| util::now_s() - t0 < b + 20.0);
+    let dl = ctx.phase_deadline.min(t0 + b);
+    crate::props::maxbatch::run(&mut ctx.out, n, r, &|| util::now_s() < dl);
 }
 
 pub fn replay(vj: &serde_json::Value, is07: bool) -> Option<Viol> {
